@@ -242,7 +242,7 @@ theorem OStep.queueControl {o o' : Outbound} {a : ControlAction} (h : o.queueCon
   · simp at h
   · simp at h; subst h; exact OStep.same rfl rfl rfl rfl
 
-theorem OStep.queueRelease {o o' : Outbound} {id rc : Nat} (h : o.queueRelease id rc = some o') : OStep o o' := by
+theorem OStep.queueRelease {o o' : Outbound} {id rc ps : Nat} (h : o.queueRelease id rc ps = some o') : OStep o o' := by
   unfold Outbound.queueRelease at h
   split at h
   · simp at h
